@@ -12,6 +12,7 @@ use std::io::Write;
 mod c06;
 mod c07;
 mod c13;
+mod c14;
 mod c20;
 mod hist;
 mod world;
@@ -41,8 +42,14 @@ pub fn hex_or_dash(b: &[u8]) -> String {
 }
 
 /// Run `f` catching panics; `Err(())` means the real code panicked.
+pub static GUARDED: std::sync::atomic::AtomicBool = std::sync::atomic::AtomicBool::new(false);
+
 pub fn guarded<T>(f: impl FnOnce() -> T + std::panic::UnwindSafe) -> Result<T, String> {
-    std::panic::catch_unwind(f).map_err(|e| {
+    use std::sync::atomic::Ordering;
+    let prev = GUARDED.swap(true, Ordering::SeqCst);
+    let r = std::panic::catch_unwind(f);
+    GUARDED.store(prev, Ordering::SeqCst);
+    r.map_err(|e| {
         if let Some(s) = e.downcast_ref::<&str>() { s.to_string() }
         else if let Some(s) = e.downcast_ref::<String>() { s.clone() }
         else { "panic".to_string() }
@@ -71,7 +78,7 @@ fn main() {
         }
     }
     // silence panic messages of the library under test (they are observations, not noise)
-    std::panic::set_hook(Box::new(|_| {}));
+    std::panic::set_hook(Box::new(|info| { if !GUARDED.load(std::sync::atomic::Ordering::SeqCst) { eprintln!("harness panic: {info}"); } }));
     let file = std::fs::File::create(&out).expect("cannot create --out file");
     let mut ctx = Ctx {
         rng: ChaCha8Rng::seed_from_u64(seed ^ 0x1505_1505),
@@ -83,6 +90,7 @@ fn main() {
         "C06" => c06::run(&mut ctx),
         "C07" => c07::run(&mut ctx),
         "C13" => c13::run(&mut ctx),
+        "C14" => c14::run(&mut ctx),
         other => { eprintln!("unknown property {other}"); std::process::exit(2); }
     }
     ctx.emit.out.flush().unwrap();
